@@ -73,6 +73,10 @@ inductive BodyBad (rd : Str → Option Nat) (ver : Nat) (pre : List Item) : Item
   /-- a hard error in advance, unicode, anchor, guideline or image (value, required attribute, shape, identifier) -/
   | elem (e : Elem) (as : List Attr) : bodyNames.contains e.name = true → e.attrs = some as →
       ElemBad rd ver (pre.flatMap itemIdents) e.name as → BodyBad rd ver pre (.elem e)
+  /-- an element named `note` (the empty note written `<note></note>` or `<note/>`) in a format-1 glyph -/
+  | v1NoteElem (e : Elem) : ver = 1 → e.name = sNote → BodyBad rd ver pre (.elem e)
+  /-- `<lib/>`: a lib without a dictionary -/
+  | libElem (e : Elem) : e.name = sLib → BodyBad rd ver pre (.elem e)
   /-- inside the outline: clean children, then one that is refused -/
   | outlineChild (a : Option (List Attr)) (kpre : List OItem) (kbad : OItem) (kpost : List OItem) :
       OKidsClean rd ver (pre.flatMap itemIdents) kpre →
@@ -187,6 +191,19 @@ theorem bodybad_rejected (law : ReadsNumerals rd) {ver : Nat} {pre : List Item} 
           all_goals exact ⟨_, rfl⟩
       obtain ⟨k, hk⟩ := e2
       simp [Item.evs, Elem.evs, hsc, ha, run, e1, hk, accepted]
+  | v1NoteElem e hv hn =>
+    have hv1 : s.ver = 1 := by rw [hcs.ver, hv]
+    have hnb : bodyEmptyNames.contains sNote = false := by decide
+    have hN : sNote ≠ sOutline := by decide
+    cases hsc : e.selfClosed
+    · simp [Item.evs, Elem.evs, hsc, run, step, hm, stepBody, bodyStart, hn, hN, hv1, accepted]
+    · simp [Item.evs, Elem.evs, hsc, run, step, hm, stepBody, hn, bodyEmpty_unknown rd s e.attrs hnb, accepted]
+  | libElem e hn =>
+    have hnb : bodyEmptyNames.contains sLib = false := by decide
+    have hns : [sOutline, sNote].contains sLib = false := by decide
+    cases hsc : e.selfClosed
+    · simp [Item.evs, Elem.evs, hsc, run, step, hm, stepBody, hn, bodyStart_unknown s hns, accepted]
+    · simp [Item.evs, Elem.evs, hsc, run, step, hm, stepBody, hn, bodyEmpty_unknown rd s e.attrs hnb, accepted]
   | outlineChild a kpre kbad kpost hk hbad =>
     by_cases hso : s.seenOutline = true
     · simp [Item.evs, run, step, hm, stepBody, bodyStart, hso, accepted]
